@@ -47,14 +47,20 @@ def main():
             env = dict(os.environ)
             if not in_repo:
                 env['FEMIO_REPO'] = wt
-            out = sh(f'./check {prop} --tier {tier}', cwd=HERE, env=env)
-            lines = [l for l in out.stdout.splitlines() if l.startswith('VIOLATION') or l.startswith(prop)]
-            detected = any(l.startswith('VIOLATION') for l in lines)
-            concrete = detected and not any('no-failing-input-found' in l for l in lines if l.startswith('VIOLATION'))
-            results[sid] = ('detected+replay' if concrete else 'detected(no-failing-input-found)' if detected else 'MISSED')
-            print(f'{sid:28s} {prop} demo_with_change_exit={dm.returncode if dm else "-"} -> {results[sid]}')
-            for l in lines[-2:]:
-                print('    ', l[:200])
+            verdicts = []
+            # meta['also_check']: other properties whose check is expected to see this change as well (a change that
+            # needs a history manifests under the history property C19 / C08 even when it was seeded for another one)
+            for pr in [prop] + list(meta.get('also_check', [])):
+                out = sh(f'./check {pr} --tier {tier}', cwd=HERE, env=env)
+                lines = [l for l in out.stdout.splitlines() if l.startswith('VIOLATION') or l.startswith(pr)]
+                detected = any(l.startswith('VIOLATION') for l in lines)
+                concrete = detected and not any('no-failing-input-found' in l for l in lines if l.startswith('VIOLATION'))
+                v = ('detected+replay' if concrete else 'detected(no-failing-input-found)' if detected else 'MISSED')
+                verdicts.append(f'{pr}:{v}')
+                print(f'{sid:28s} {pr} demo_with_change_exit={dm.returncode if dm else "-"} -> {v}')
+                for l in lines[-2:]:
+                    print('    ', l[:200])
+            results[sid] = ' '.join(verdicts)
         if in_repo:
             sh('git -C /repo checkout -- .')
         else:
